@@ -224,6 +224,21 @@ impl Scenario for C08 {
                 // a short structural prefix (BOM pieces, NUL, CR/LF) in front of the file
                 let n = 1 + rng.below(4);
                 let mut m: Vec<u8> = (0..n).map(|_| *rng.pick(&crate::corpus::SHORT_ALPHABET)).collect();
+                if rng.chance(1, 2) {
+                    // a byte-order mark that is never completed
+                    m = rng.pick(&[&[0xFFu8][..], &[0xFE], &[0xEF], &[0xEF, 0xBB], &[0xFF, 0xFF], &[0xEF, 0xBB, 0xEF], &[0xFE, 0xFE], &[0xEF, 0xEF, 0xBB, 0xBF]]).to_vec();
+                    p.set("force_small_first_chunk", 1 + rng.below(2) as i64);
+                    if rng.chance(1, 2) {
+                        // ... on a line of its own
+                        m.extend_from_slice(if rng.chance(1, 3) { b"\r\n" } else { b"\n" });
+                    }
+                    if rng.chance(1, 2) {
+                        // ... in a file that has no version line (what follows the prefix is then a header or a record)
+                        let text = crate::corpus::model_text(&p.data);
+                        let rest: String = text.lines().skip_while(|l| l.trim().is_empty() || l.trim_start().starts_with("osu file format") || l.trim_start().starts_with("//")).collect::<Vec<_>>().join("\n");
+                        p.data = rest.into_bytes();
+                    }
+                }
                 m.extend_from_slice(&p.data);
                 p.data = m;
                 p.faults.push("content-short-structural-prefix".into());
@@ -246,6 +261,12 @@ impl Scenario for C08 {
             _ => {}
         }
         plan_transport(&mut rng, &mut p, false);
+        if p.has("force_small_first_chunk") && rng.chance(2, 3) {
+            p.set("t", if rng.chance(1, 2) { T_SIM } else { T_BUFREADER });
+            p.set("cap", p.get("force_small_first_chunk"));
+            p.sched = vec![p.get("force_small_first_chunk") as u32, 1 + rng.below(3) as u32, 4096];
+            p.eintr.clear();
+        }
         if rng.chance(1, 12) {
             // the full decoder through the entry points it has of its own (str::parse, Beatmap::from_bytes,
             // Beatmap::from_path): the same bytes, the same result
